@@ -27,7 +27,7 @@ META = {
 OPS = {  # name -> (input types, output types) over {"q","b"}
     "H": ("q", "q"), "CX": ("qq", "qq"), "Measure": ("q", "qb"), "Not": ("b", "b"), "Fan3": ("b", "bbb"),
     "Swap": ("bq", "qb"), "Noop": ("?", "?"), "QFree": ("q", ""), "QAlloc": ("", "q"),
-    "CCX": ("qqq", "qqq"),
+    "CCX": ("qqq", "qqq"), "And2": ("bb", "b"),
 }
 
 
@@ -59,19 +59,28 @@ def gen_script(r, max_steps):
                 tracked[i] = None
         elif p < 0.9:
             cmds = []
-            for _ in range(1 if r.random() < 0.7 else r.randint(2, 3)):
+            ncmds = 1 if r.random() < 0.7 else r.randint(2, 3)
+            for _ in range(ncmds):
                 name = r.choice(list(OPS))
                 ins, outs = OPS[name]
                 if name == "Noop":
                     ins = outs = r.choice("qb")
                 args = []
+                dangling = []
                 for pos, t in enumerate(ins):
                     # an index is rebound to the output at the argument's position: only use one where
                     # the op has such an output
                     # (one index at most once per command: what a repeated index should be rebound to is not stated)
                     cands_i = [i for i, x in enumerate(tracked) if x == t and i not in args] if pos < len(outs) else []
                     cands_w = [w for w in wires if w[1] == t]
-                    if cands_i and r.random() < 0.65:
+                    beyond = [i for i, x in enumerate(tracked) if x == t and i not in args] if pos >= len(outs) and ncmds == 1 else []
+                    if beyond and r.random() < 0.35:
+                        # an index at a position where the op has NO output: it is rebound all the same ("the new
+                        # node's output at the argument's position"); it is untracked right after the command, the
+                        # wire it then denotes cannot be used
+                        args.append(r.choice(beyond))
+                        dangling.append(args[-1])
+                    elif cands_i and r.random() < 0.65:
                         args.append(r.choice(cands_i))
                     elif cands_w and r.random() < 0.9:
                         args.append(r.choice(cands_w)[0])
@@ -96,6 +105,7 @@ def gen_script(r, max_steps):
                     break
             if len(cmds) == 1:
                 sc["steps"].append(["add", cmds[0]])
+                cmds[0]["dangling"] = list(dangling)
                 c0 = cmds[0]
                 if (r.random() < 0.2 and c0["args"] and all(isinstance(a, int) for a in c0["args"])
                         and all(a < len(tracked) and tracked[a] is not None for a in c0["args"])
@@ -112,6 +122,12 @@ def gen_script(r, max_steps):
                 for c in cmds:
                     c["md"] = None
                 sc["steps"].append(["extend", cmds])
+            # indices left on an output the op does not have are given up at once
+            for c in cmds:
+                for a in c.get("dangling", []) if len(cmds) == 1 else []:
+                    if a < len(tracked) and tracked[a] == "?":
+                        sc["steps"].append(["untrack", a])
+                        tracked[a] = None
     if r.random() < 0.5:
         sc["steps"].append(["set_tracked_outputs"])
     else:
